@@ -88,7 +88,8 @@ def w_repr(cfg, tier):
             lt.validate_paths_at(col, f'{cfg}#{kind}{dim}', ps, lv, cs,
                                  lambda l_, fn_name=fn_name: json.loads(json.dumps(
                                      getattr(fresh_code, fn_name)(l_, rotated), default=float)),
-                                 lambda v, sub: json.loads(json.dumps(lt.concretise(v, sub), default=float)))
+                                 lambda v, sub: json.loads(json.dumps(lt.concretise(v, sub), default=float)),
+                                 impure_oid=f'C20/{fn_name}/is-a-function-of-the-location')
             wit = lambda m, lv=lv, kind=kind: dict(kind=kind, location=[m.eval(v, model_completion=True).as_long() for v in lv],
                                                    rotated=rotated)
             bad_exc, bad_inc = [], []
@@ -294,6 +295,14 @@ def replay(path):
     with open(path) as f:
         d = json.load(f)
     w, oid, cfg = d['witness'], d['oid'], d['config']
+    if isinstance(w, dict) and w.get('impure'):
+        # the real function returned two different values for the same argument: re-run the worker in this fresh
+        # interpreter; the obligation must be reported again
+        res = worker(cfg)
+        bad = any(o['oid'] == oid and o['verdict'] == 'sat' for o in res['obs'])
+        print('impure function at', w.get('location'))
+        print('REPLAY', 'reproduced' if bad else 'not-reproduced', oid, cfg)
+        return 0
     bad = False
     try:
         if cfg.startswith('repr'):
